@@ -13,9 +13,19 @@ type Ctx struct {
 	Trace  []int // choices taken
 	Widths []int // number of alternatives at each point
 	Labels []string
+	Free   []bool // choice points whose alternatives cost no deviation
 }
 
 // Choose returns the choice at this point among n alternatives (0 = default).
+// ChooseFree is Choose for points whose non-default alternatives are not
+// counted against the deviation bound (e.g. picking the next thread when the
+// running one is blocked).
+func (c *Ctx) ChooseFree(n int, label string) int {
+	v := c.Choose(n, label)
+	c.Free[len(c.Free)-1] = true
+	return v
+}
+
 func (c *Ctx) Choose(n int, label string) int {
 	if n <= 0 {
 		panic("mc: Choose with no alternatives")
@@ -31,6 +41,7 @@ func (c *Ctx) Choose(n int, label string) int {
 	c.Trace = append(c.Trace, v)
 	c.Widths = append(c.Widths, n)
 	c.Labels = append(c.Labels, label)
+	c.Free = append(c.Free, false)
 	return v
 }
 
@@ -51,15 +62,18 @@ type Options struct {
 	ShardI, ShardN, ShardDepth int
 }
 
-func deviations(tr []int) int {
+func deviations(tr []int, free []bool) int {
 	d := 0
-	for _, v := range tr {
-		if v != 0 {
+	for i, v := range tr {
+		if v != 0 && !(i < len(free) && free[i]) {
 			d++
 		}
 	}
 	return d
 }
+
+// Deviations counts the counted non-default choices of an execution.
+func (c *Ctx) Deviations() int { return deviations(c.Trace, c.Free) }
 
 func owner(tr []int, depth, n int) int {
 	h := uint32(2166136261)
@@ -111,7 +125,11 @@ func Explore(opts Options, body func(c *Ctx)) Stats {
 			if opts.ShardN > 1 && i >= opts.ShardDepth && !mine {
 				break
 			}
-			if opts.MaxDeviations >= 0 && deviations(c.Trace[:i])+1 > opts.MaxDeviations {
+			cost := 1
+			if c.Free[i] {
+				cost = 0
+			}
+			if opts.MaxDeviations >= 0 && deviations(c.Trace[:i], c.Free)+cost > opts.MaxDeviations {
 				continue
 			}
 			for alt := 1; alt < c.Widths[i]; alt++ {
